@@ -2,6 +2,7 @@ package eng
 
 import (
 	"context"
+	"encoding/binary"
 	"fmt"
 	"math/rand"
 	"sync"
@@ -22,9 +23,11 @@ type FaultSpec struct {
 	DelayP   float64
 	MaxDelay time.Duration
 	Until    time.Duration
-	// DropTail, if > 0, drops the last DropTail DATA packets of every burst
-	// (a burst ends when TailOf reports true for the packet index).
 	Seed int64
+	// DropFirstTx lists message indices (as embedded in bytes 1..4 of a
+	// message of >=5 bytes) whose first transmission is dropped regardless
+	// of Until: used for tail-loss scenarios.
+	DropFirstTx map[uint32]bool
 }
 
 func (f FaultSpec) String() string {
@@ -34,7 +37,15 @@ func (f FaultSpec) String() string {
 // Decider builds the link decider for the spec; start is when faults begin.
 func (f FaultSpec) Decider(start time.Time) sim.Decider {
 	rng := rand.New(rand.NewSource(f.Seed))
+	seen := map[uint32]bool{}
 	return func(idx int, p sim.Pkt, now time.Time) sim.Decision {
+		if f.DropFirstTx != nil && p.Type == sim.TData && !p.Ping && len(p.Payload) >= 5 {
+			mi := binary.BigEndian.Uint32(p.Payload[1:5])
+			if f.DropFirstTx[mi] && !seen[mi] {
+				seen[mi] = true
+				return sim.Decision{Drop: true}
+			}
+		}
 		if now.Sub(start) >= f.Until {
 			return sim.Decision{}
 		}
@@ -63,8 +74,10 @@ type Scen struct {
 	// GapsA / GapsB (optional) are sleeps before each Send.
 	GapsA, GapsB []time.Duration
 	Horizon      time.Duration
-	// Quiesce is how long to keep observing after both flows completed.
-	Quiesce time.Duration
+	// Quiesce is how long to keep observing after both flows completed and
+	// both send queues drained; QuiesceWait bounds the wait for the drain.
+	Quiesce     time.Duration
+	QuiesceWait time.Duration
 }
 
 // ScenResult is everything observed in a scenario run.
@@ -89,7 +102,10 @@ type ScenResult struct {
 	// QuiesceData is the number of non-ping DATA packets put on the wire
 	// during the quiescence observation window.
 	QuiesceData int
+	Drained     bool // both send queues were seen empty after completion
 	QuiesceFrom time.Duration
+	StateCQ     gbn.VerifConnState // at the start of the quiescence window
+	StateSQ     gbn.VerifConnState
 	Panic       any
 }
 
@@ -256,10 +272,40 @@ func runScenBody(sc *Scen, h Hooks, res *ScenResult) {
 	}
 
 	if res.Completed && sc.Quiesce > 0 {
-		// Let the last ACKs arrive, then observe silence.
-		time.Sleep(3*sc.Conf.Lat + 10*time.Millisecond)
-		res.QuiesceFrom = time.Since(t0)
-		time.Sleep(sc.Quiesce)
+		// Wait for the end of the fault window, then for an instant at
+		// which both send queues are empty (everything, keepalive pings
+		// included, has been acknowledged), then observe silence.
+		if rem := tf - time.Since(fs); rem > 0 {
+			time.Sleep(rem)
+		}
+		open := func() bool {
+			select {
+			case <-p.C.VerifDone():
+				return false
+			case <-p.S.VerifDone():
+				return false
+			default:
+				return true
+			}
+		}
+		deadline := time.Now().Add(sc.QuiesceWait)
+		for open() {
+			if p.C.VerifState().Size == 0 && p.S.VerifState().Size == 0 {
+				res.Drained = true
+				break
+			}
+			if time.Now().After(deadline) {
+				break
+			}
+			time.Sleep(50 * time.Millisecond)
+		}
+		if res.Drained {
+			// step past the instant of the last acknowledgement
+			time.Sleep(time.Millisecond)
+			res.QuiesceFrom = time.Since(t0)
+			res.StateCQ, res.StateSQ = p.C.VerifState(), p.S.VerifState()
+			time.Sleep(sc.Quiesce)
+		}
 	}
 
 	res.Elapsed = time.Since(t0)
